@@ -176,6 +176,17 @@ const STANDALONE: &[&str] = &[
     "CALL algo.pageRank({}) YIELD node", "CALL algo.wcc() YIELD node RETURN node", "CALL samyama.or.solve({}) YIELD x RETURN x",
     "CALL gds.OR.Solve({})", "CALL or.solve({})", "CALL apoc.create.node(['Z'], {})", "CALL db.labels()", "CALL db.propertyKeys() YIELD propertyKey RETURN propertyKey",
     "CREATE (a:Z) WITH a CREATE (b:Z)", "MATCH (n:P) WITH n CREATE (m:Z) WITH m RETURN m", "MATCH (n:P) CALL db.labels() YIELD label RETURN n, label",
+    // writes hidden deeper: nested subqueries / UNION branches / pipeline CALL / several statements
+    "CALL { CALL { MATCH (n:P) DETACH DELETE n } }", "CALL { MATCH (n:P) RETURN n UNION MATCH (n:P) DETACH DELETE n RETURN n } RETURN n",
+    "RETURN 1 AS x UNION CALL { MATCH (n:P) SET n.k = 7 } RETURN 1 AS x", "RETURN 1 AS x UNION RETURN 2 AS x UNION MATCH (n:P) REMOVE n.k RETURN 1 AS x",
+    "MATCH (n:P) CALL { CREATE (z:Z) } RETURN n", "MATCH (n:P) CALL { WITH n SET n.k = 5 } RETURN n",
+    "MATCH (n:P) CALL algo.or.solve({}) YIELD x RETURN x", "RETURN 1 AS x UNION CALL algo.or.solve({}) YIELD x RETURN x",
+    "CALL { CALL algo.or.solve({}) YIELD x RETURN x } RETURN x", "CALL algo.OR.SOLVE({})", "CALL ALGO.or.solve({})",
+    "MATCH (n:P) RETURN n; MATCH (n:P) DETACH DELETE n", "MATCH (n:P) RETURN n;", "MATCH (n:P) DETACH DELETE n;", "MATCH (n:P) RETURN n ; ",
+    "MATCH (n:Nope) DETACH DELETE n", "MATCH (n:P) WHERE false SET n.k = 1", "MERGE (n:P {name: 'a'})", "MATCH (n:P) SET n.k = n.k",
+    "OPTIONAL MATCH (n:P) DETACH DELETE n", "MATCH (n:P) WITH n LIMIT 1 DETACH DELETE n", "MATCH (n:P) WITH n ORDER BY n.k DELETE n",
+    "UNWIND [1] AS x WITH x MATCH (n:P) SET n.k = x", "MATCH (a:P), (b:Q) CREATE (a)-[:NEW]->(b)", "MATCH (a:P)-[r:R]->(b) SET r.w = 2", "MATCH (a:P)-[r:R]->(b) DELETE r",
+    "PROFILE CALL algo.or.solve({})", "EXPLAIN CREATE (z:Z)", "PROFILE CREATE INDEX ON :P(k)",
     // reads that only *mention* write keywords
     "MATCH (n:P) WHERE n.name = 'DETACH DELETE n' RETURN n", "MATCH (n:P) /* DELETE n */ RETURN n", "MATCH (n:P) // SET n.k = 1\nRETURN n",
     "MATCH (n:P) RETURN 'CREATE (x)' AS s", "MATCH (delete:P) RETURN delete", "MATCH (n:P) RETURN n.set AS create",
@@ -232,6 +243,26 @@ fn wrap(rng: &mut Rng, kind: usize, stmt: &str, other: &str) -> String {
         8 => format!("  \n {}  \n", stmt),
         9 => format!("```cypher {}```", stmt),
         10 => format!("Use `{}` or:\n```\n{}\n```", other, stmt),
+        11 => stmt.replace(" RETURN", "\nRETURN").replace(" SET", "\nSET").replace(" DETACH", "\nDETACH").replace(" WITH", "\nWITH").replace(" UNION", "\nUNION"),
+        12 => format!("Here is the query:\r\n```cypher\r\n{}\r\n```\r\nHope this helps!\r\n", stmt),
+        13 => format!("```Cypher \n{}\n```\nThis returns the rows. Use ``` to quote it.", stmt),
+        14 => format!("```sql\n{}\n```\n\nMATCH is the read clause; RETURN gives the rows.", stmt),
+        15 => format!("The query is ```{}``` as requested.", stmt),
+        16 => format!("Answer: ```cypher\n{}\n``` (read-only)", stmt),
+        17 => format!("~~~cypher\n{}\n~~~", stmt),
+        18 => format!("````cypher\n{}\n````", stmt),
+        19 => format!("```\n```\n{}\n```\n", stmt),
+        20 => format!("Match all the nodes you need:\n{}\nReturn to me if it fails.", stmt),
+        21 => format!("With pleasure. Call it like this:\n\n    {}\n\nLimit the result if needed.", stmt),
+        22 => format!("\u{feff}{}", stmt),
+        23 => format!("\t{}\t\n\n", stmt.replace(' ', "\t")),
+        24 => format!("{}\r\n-- {}\r\n", stmt, other),
+        25 => format!("```cypher\n{}\n```\n```cypher\n{}\n", stmt, other),
+        26 => format!("{}\n```cypher\n{}\n```", other, stmt),
+        27 => format!("```cypher\n// {}\n{}\n```", other, stmt),
+        28 => format!("1. {}\n2. {}", stmt, other),
+        29 => format!("> {}", stmt),
+        30 => stmt.replace(' ', "\u{a0}"),
         _ => {
             // every clause on its own line (the line filter keeps only lines starting with a read keyword)
             let mut s = stmt.replace(" RETURN", "\nRETURN").replace(" SET", "\nSET").replace(" DETACH", "\nDETACH");
@@ -242,7 +273,7 @@ fn wrap(rng: &mut Rng, kind: usize, stmt: &str, other: &str) -> String {
         }
     }
 }
-const N_WRAP: usize = 12;
+const N_WRAP: usize = 32;
 
 /// the one procedure of the engine that writes (AlgorithmOperator: `or.solve` under any namespace)
 fn call_writes(name: &str) -> bool {
@@ -261,8 +292,8 @@ fn main() {
     let mut rep = Report::new(
         "C24",
         "scripted model responses: read prefix x write/DDL clause x tail (and whole statements: DDL, subqueries, UNION branches, write \
-         procedures, decoys, unparsable text) x separators x keyword case x 12 wrappings (fences, language tag, prose, two blocks, \
-         unterminated fence, one clause per line); non-trivial = the extracted statement writes and its leading clause is not a write \
+         procedures, decoys, unparsable text) x separators x keyword case x 32 wrappings (fences, language tags, CRLF, prose before/after, inline and tilde fences, two blocks, \
+         unterminated fence, prose lines starting with a keyword, BOM, NBSP, one clause per line); non-trivial = the extracted statement writes and its leading clause is not a write \
          keyword or it uses a non-space separator; distinct = distinct response text",
         &args.replays,
         args.seed,
@@ -326,7 +357,7 @@ fn main() {
         for s in STANDALONE {
             stmts.push(s.to_string());
         }
-        let wraps: Vec<usize> = if args.thorough() { (0..N_WRAP).collect() } else { vec![0, 1, 4, 11] };
+        let wraps: Vec<usize> = if args.thorough() { (0..N_WRAP).collect() } else { vec![0, 3, 11, 12, 20, 31] };
         for s in &stmts {
             for k in &wraps {
                 responses.push(wrap(&mut rng, *k, s, "MATCH (n:P) RETURN n"));
